@@ -25,9 +25,9 @@ static int W_NOEOL, W_NOEOL_ENTRY_LAST, W_CRLF, W_NEWSEC, W_NEWKEY, W_CHANGED, W
 static int W_CSV_QUOTED, W_CSV_NUM, W_CSV_EMPTY, W_CSV_ARRAY, W_CSV_CELLWISE, W_CSV_BIG, W_CSV_CELLS, W_CSV_SEMI, W_CSV_BYNAME;
 
 // =============================================================================================== INI
-static const char* LINES[] = { "[a]", "[b]", "x=1", "y=2", "  z=3", "# c", "; c", "" };
+static const char* LINES[] = { "[a]", "[ab]", "x=1", "y=2", "  z=3", "# c", "; c", "" };
 enum { NLINES = 8 };
-static const char* NAMES[] = { "a/x", "a/n", "b/y", "c/k", "x" };
+static const char* NAMES[] = { "a/x", "a/n", "ab/y", "c/k", "x" }; // section "a" is a prefix of section "ab"
 static const char* VALUES[] = { "v", "w w" };
 enum { NOPS = 10 };
 static const char* op_name(int op) { return NAMES[op / 2]; }
@@ -444,7 +444,7 @@ int main(int argc, char** argv) {
 	{ Plan p = { 0, 3, 3, true }; ini_plan(p); }    // texts <= 3 lines x histories <= 3 x write() after every prefix
 	csv_shape(3, 2);
 	csv_shape(2, 3);
-	vf::sample("ini:L:0:3:01234:951 = 5-line text \"[a]\\n[b]\\nx=1\\ny=2\\n  z=3\" (no final newline), set(\"x\",\"w w\"); set(\"b/y\",\"w w\"); set(\"a/x\",\"w w\"); write(); ~IniFile()");
+	vf::sample("ini:L:0:3:01234:951 = 5-line text \"[a]\\n[ab]\\nx=1\\ny=2\\n  z=3\" (no final newline), set(\"x\",\"w w\"); set(\"ab/y\",\"w w\"); set(\"a/x\",\"w w\"); write(); ~IniFile()");
 	vf::sample("ini:C:1:1:570:382 (write() after every prefix): text \"# c\\r\\n\\r\\n[a]\\r\\n\", set(\"a/n\",\"w w\"); write(); set(\"x\",\"v\"); set(\"a/n\",\"v\"); ~IniFile()");
 	vf::sample("csv:A:3x2:<every one of 13^6 tables> written as arrays and cell by cell, read back with data()");
 	return vf::finish();
